@@ -106,6 +106,87 @@ print('OK')
 '''
 
 
+def races(ctx, g, root):
+    """what a second process can do between two file operations of this one"""
+    real_os = pcache.os
+    path = os.path.join(root, 'm0.py')
+    code = open(path).read()
+    fresh_sig = preds.sig_tree(g.parse(code))
+    # (a) the version directory is created by somebody else after the existence test
+    cdir = Path(root) / 'cache-race-a'
+
+    class RaceMkdir:
+        def __getattr__(self, name):
+            real = getattr(real_os, name)
+            if name == 'makedirs':
+                def racing(p, *a, **k):
+                    if not real_os.path.exists(p):
+                        real_os.makedirs(p)                  # the other process wins
+                    return real(p, *a, **k)                    # ... and ours finds the directory in place
+                return racing
+            return real
+    pcache.os = RaceMkdir()
+    try:
+        pcache.parser_cache.clear()
+        ctx.count('races')
+        try:
+            m = parse_cached(g, path, cdir)
+            if preds.sig_tree(m) != fresh_sig:
+                ctx.violation('C17:wrong-tree-on-directory-created-concurrently', dict(kind='faults', state='makedirs-race', module=code))
+        except Exception as e:
+            ctx.violation('C17:parse-raises-on-directory-created-concurrently:%s' % type(e).__name__,
+                          dict(kind='faults', state='makedirs-race', exception=preds.crash_sig(e), module=code))
+    finally:
+        pcache.os = real_os
+    # (b) a file of the cache directory disappears between scandir() and stat() while this process cleans up
+    cdir = Path(root) / 'cache-race-b'
+    pcache.parser_cache.clear()
+    parse_cached(g, path, cdir)
+    vdir = os.path.dirname(pcache._get_hashed_path(g._hashed, Path(path), cache_path=cdir))
+    ghost = os.path.join(vdir, 'other-process.12345.tmp')
+    open(ghost, 'wb').write(b'x')
+
+    class Vanishing:
+        def __init__(self, e):
+            self.e = e
+            self.path, self.name = e.path, e.name
+
+        def stat(self, *a, **k):
+            if self.name.endswith('.tmp'):
+                if real_os.path.exists(self.path):
+                    real_os.remove(self.path)
+                raise FileNotFoundError(2, 'No such file or directory', self.path)
+            return self.e.stat(*a, **k)
+
+        def __getattr__(self, name):
+            return getattr(self.e, name)
+
+    class RaceScan:
+        def __getattr__(self, name):
+            real = getattr(real_os, name)
+            if name == 'scandir':
+                return lambda p: [Vanishing(e) for e in real(p)]
+            return real
+    lock = pcache._get_cache_clear_lock_path(cache_path=cdir)
+    if os.path.exists(lock):
+        old = time.time() - 2 * 86400
+        os.utime(lock, (old, old))
+    pcache.os = RaceScan()
+    try:
+        pcache.parser_cache.clear()
+        os.utime(path, None)                                   # the source is newer than the entry: this parse saves and then cleans up
+        ctx.count('races')
+        try:
+            m = parse_cached(g, path, cdir)
+            if preds.sig_tree(m) != fresh_sig:
+                ctx.violation('C17:wrong-tree-on-file-vanishing-during-cleanup', dict(kind='faults', state='cleanup-stat-race', module=code))
+        except Exception as e:
+            ctx.violation('C17:parse-raises-on-file-vanishing-during-cleanup:%s' % type(e).__name__,
+                          dict(kind='faults', state='cleanup-stat-race', exception=preds.crash_sig(e), module=code))
+    finally:
+        pcache.os = real_os
+
+
 def run(ctx, b, drv):
     # a flipped bit in a length field makes pickle.load ask for gigabytes (and spend minutes filling them, inside C code that no signal
     # interrupts): with an address-space limit the allocation fails at once with MemoryError, which the loader treats like any other damage
@@ -232,9 +313,37 @@ def run_limited(ctx, b, drv):
             import builtins
             real_open = builtins.open
 
+            ERR = [lambda p: PermissionError(13, 'Permission denied', str(p)), 'read-only-directory']
+            WRITE_LIMIT = [None]
+
+            class ShortFile:
+                # a file on a full disk: the first bytes go through, then write() fails
+                def __init__(self, f, limit, p):
+                    self.f, self.left, self.p = f, limit, p
+
+                def write(self, b):
+                    if len(b) > self.left:
+                        self.f.write(b[:self.left])
+                        self.left = 0
+                        raise ERR[0](self.p)
+                    self.left -= len(b)
+                    return self.f.write(b)
+
+                def __getattr__(self, name):
+                    return getattr(self.f, name)
+
+                def __enter__(self):
+                    return self
+
+                def __exit__(self, *a):
+                    self.f.close()
+                    return False
+
             def ro_open(p, mode='r', *a, **k):
                 if ('w' in mode or 'a' in mode) and str(p).startswith(str(cdir)):
-                    raise PermissionError(13, 'Permission denied', str(p))
+                    if WRITE_LIMIT[0] is not None:
+                        return ShortFile(real_open(p, mode, *a, **k), WRITE_LIMIT[0], p)
+                    raise ERR[0](p)
                 return real_open(p, mode, *a, **k)
             # every way of changing the directory fails, not only opening a file for writing
             real_os = pcache.os
@@ -246,11 +355,20 @@ def run_limited(ctx, b, drv):
                         def guarded(p, *a, **k):
                             targets = [p] + [x for x in a[:1] if isinstance(x, (str, bytes, os.PathLike))]
                             if any(str(t).startswith(str(cdir)) for t in targets):
-                                raise PermissionError(13, 'Permission denied', str(p))
+                                raise ERR[0](p)
                             return real(p, *a, **k)
                         return guarded
                     return real
-            for corrupt_name, content in (('truncated', orig[:n // 2]), ('empty', b''), ('garbage', b'\x80\x04junk' * 5), ('intact', orig)):
+            import errno as _errno
+            FAULTS = [(lambda p: PermissionError(13, 'Permission denied', str(p)), 'read-only-directory', None),
+                      (lambda p: OSError(_errno.ENOSPC, 'No space left on device', str(p)), 'full-disk', None),
+                      (lambda p: OSError(_errno.ENOSPC, 'No space left on device', str(p)), 'full-disk-after-some-bytes', 17),
+                      (lambda p: OSError(_errno.EROFS, 'Read-only file system', str(p)), 'read-only-file-system', None),
+                      (lambda p: OSError(_errno.EDQUOT, 'Disk quota exceeded', str(p)), 'quota-exceeded', None),
+                      (lambda p: OSError(_errno.EIO, 'Input/output error', str(p)), 'io-error', 0)]
+            for (mk, fault_name, wlimit), (corrupt_name, content) in [(f_, c_) for f_ in FAULTS for c_ in
+                                                                      (('truncated', orig[:n // 2]), ('empty', b''), ('garbage', b'\x80\x04junk' * 5), ('intact', orig))]:
+                ERR[0], ERR[1], WRITE_LIMIT[0] = mk, fault_name, wlimit
                 pcache.open = ro_open
                 pcache.os = RoOs()
                 try:
@@ -261,13 +379,14 @@ def run_limited(ctx, b, drv):
                     try:
                         m = parse_cached(g, path, cdir)
                         if preds.sig_tree(m) != fresh_sig:
-                            ctx.violation('C17:wrong-tree-on-read-only-directory', dict(kind='faults', state='read-only-directory+' + corrupt_name, module=code))
+                            ctx.violation('C17:wrong-tree-on-%s' % fault_name, dict(kind='faults', state=fault_name + '+' + corrupt_name, module=code))
                     except Exception as e:
-                        ctx.violation('C17:parse-raises-on-read-only-directory:%s' % type(e).__name__,
-                                      dict(kind='faults', state='read-only-directory+' + corrupt_name, exception=preds.crash_sig(e), module=code))
+                        ctx.violation('C17:parse-raises-on-%s:%s' % (fault_name, type(e).__name__),
+                                      dict(kind='faults', state=fault_name + '+' + corrupt_name, exception=preds.crash_sig(e), module=code))
                 finally:
                     del pcache.open
                     pcache.os = real_os
+        races(ctx, g, root)
         # clean-up keeps entries in use
         cdir2 = Path(root) / 'cache2'
         now = time.time()
